@@ -2975,8 +2975,10 @@ fn generate_constraints_expr(
                             func,
                             args,
                             expr,
-                            node_ty,
+                            node_ty.clone(),
                         );
+                        // the end of this function is skipped
+                        handle_ana(ctx, mode, node_ty);
                         return;
                     }
                     match ctx.resolution_map.get(&fname.id).cloned() {
